@@ -22,7 +22,8 @@ to the state-domain rules).  An effect that disappears is an analysis error
 with the property it was checked against - that is the intended review
 point, the same as for the frozen who-may-write tables.
 
-Each line: (properties, function, effect call, [(fact, truth)...]).
+Each line: (properties, function, effect, [(fact, truth)...]); an effect is
+the name of a call, or `=attr` for an attribute store.
 """
 import ast
 import re
@@ -205,6 +206,87 @@ TABLE = [
      [('action_ex_id', True), ('action.is_sync() or result.is_error()', True), ('thread.is_alive()', False), ('redelivered and (not safe_rerun)', False)]),
     (('C09',), 'mistral.engine.actions.WorkflowAction.schedule', 'register_operation',
      [('cfg.CONF.engine.start_subworkflows_via_rpc', True)]),
+    # ---- second batch: stores, policies, scheduler, services -------------
+    (('C07', 'C06'), 'mistral.engine.task_handler._scheduled_on_action_complete', '_on_action_complete',
+     [('action_ex', True)]),
+    (('C07', 'C10'), 'mistral.engine.task_handler._scheduled_on_action_update', '_on_action_update',
+     [('action_ex', True)]),
+    (('C10', 'C01'), 'mistral.engine.tasks.Task.complete', '=next_tasks',
+     [('self.set_state(state, state_info)', True)]),
+    (('C10', 'C01'), 'mistral.engine.tasks.Task.complete', '=has_next_tasks',
+     [('self.set_state(state, state_info)', True)]),
+    (('C10', 'C01'), 'mistral.engine.tasks.Task.complete', '=error_handled',
+     [('self.set_state(state, state_info)', True)]),
+    (('C10', 'C01'), 'mistral.engine.tasks.Task.complete', '=processed',
+     [('self.set_state(state, state_info)', True)]),
+    (('C10',), 'mistral.engine.workflows.Workflow._continue_workflow', '=processed',
+     [('t_ex.processed', False)]),
+    (('C10',), 'mistral.engine.workflows.Workflow._continue_workflow', 'check_and_complete',
+     [('cmds', False), ('self._get_backlog()', False)]),
+    (('C09', 'C07'), 'mistral.engine.workflows.Workflow.set_state', '=accepted',
+     [('wf_ex is None', False)]),
+    (('C09',), 'mistral.engine.workflows.Workflow._send_result_to_parent_workflow', 'Result',
+     []),
+    (('C01',), 'mistral.workflow.direct_workflow.DirectWorkflowController._find_next_tasks', 'append',
+     [('not cond or expr.evaluate(cond, ctx_view)', True)]),
+    (('C12',), 'mistral.workflow.base.WorkflowController.rerun_tasks', 'RunExistingTask',
+     [('self._is_paused_or_completed()', False)]),
+    (('C12',), 'mistral.workflow.base.WorkflowController.skip_tasks', 'SkipTask',
+     [('self._is_paused_or_completed()', False)]),
+    (('C08',), 'mistral.engine.policies.RetryPolicy.after_task_complete', 'schedule',
+     [("hasattr(task.task_spec, 'get_join') and task.task_spec.get_join()", False), ('retry_no < self.count', True), ('stop_continue_flag', False), ('self.count == 0', False)]),
+    (('C08',), 'mistral.engine.policies.RetryPolicy.after_task_complete', '_schedule_refresh_task_state',
+     [("hasattr(task.task_spec, 'get_join')", True), ('task.task_spec.get_join()', True), ('retry_no < self.count', True), ('stop_continue_flag', False), ('self.count == 0', False)]),
+    (('C08',), 'mistral.engine.policies.RetryPolicy.after_task_complete', 'set_state',
+     [("hasattr(task.task_spec, 'get_join')", True), ('task.task_spec.get_join()', True), ('retry_no < self.count', True), ('stop_continue_flag', False), ('self.count == 0', False), ("hasattr(task.task_spec, 'get_join') and task.task_spec.get_join()", False)]),
+    (('C08',), 'mistral.engine.policies.WaitBeforePolicy.before_task_start', 'schedule',
+     [("task.get_policy_context('wait_before_policy').get('skip')", False), ('self.delay == 0', False)]),
+    (('C08',), 'mistral.engine.policies.WaitAfterPolicy.after_task_complete', 'schedule',
+     [("task.get_policy_context('wait_after_policy').get('skip')", False), ('self.delay == 0', False)]),
+    (('C08',), 'mistral.engine.policies.TimeoutPolicy.before_task_start', 'schedule',
+     [('self.delay == 0', False)]),
+    (('C08',), 'mistral.engine.policies.PauseBeforePolicy.before_task_start', 'pause_workflow',
+     [('self.expr', True)]),
+    (('C08',), 'mistral.engine.policies.FailOnPolicy.after_task_complete', 'set_state',
+     [('self.fail_on', True)]),
+    (('C08',), 'mistral.engine.policies.construct_policies_list', 'append',
+     [('policy', True)]),
+    (('C13',), 'mistral.scheduler.default_scheduler.DefaultScheduler._dispatcher', 'submit',
+     [('(self._heap[0][0] - utils.utc_now_sec()).total_seconds() <= 0', True), ('self._heap', True), ('self._stopped', False)]),
+    (('C13',), 'mistral.scheduler.default_scheduler.DefaultScheduler._dispatcher', 'heappop',
+     [('(self._heap[0][0] - utils.utc_now_sec()).total_seconds() <= 0', True), ('self._heap', True), ('self._stopped', False)]),
+    (('C13',), 'mistral.scheduler.default_scheduler.DefaultScheduler._capture_scheduled_job', 'update_scheduled_job',
+     []),
+    (('C20',), 'mistral.services.action_heartbeat_checker.handle_expired_actions', 'get_task_execution',
+     [('action_ex.task_execution_id', True), ('action_exs', True)]),
+    (('C20',), 'mistral.services.action_heartbeat_checker.start', 'start',
+     [('CONF.action_heartbeat.check_interval and CONF.action_heartbeat.max_missed_heartbeats', True)]),
+    (('C20',), 'mistral.services.action_heartbeat_sender.start', 'start',
+     [('CONF.action_heartbeat.check_interval and CONF.action_heartbeat.max_missed_heartbeats', True)]),
+    (('C18',), 'mistral.services.expiration_policy.run_execution_expiration_policy', '_delete_executions',
+     []),
+    (('C06', 'C10'), 'mistral.engine.default_engine.DefaultEngine.on_action_update', 'on_action_update',
+     []),
+    (('C01', 'C06'), 'mistral.engine.task_handler.create_task', 'create_new',
+     [('first_run', True)]),
+    (('C12',), 'mistral.engine.task_handler._build_task_after_rpc', 'reset',
+     [('reset', True)]),
+    (('C12',), 'mistral.engine.tasks.RegularTask._reset_actions', '=accepted',
+     []),
+    (('C12',), 'mistral.engine.workflow_handler.rerun_workflow', '_schedule_check_and_fix_integrity',
+     [('wf_ex.task_execution_id', True)]),
+    (('C07',), 'mistral.engine.tasks.WithItemsTask._increase_capacity', 'update',
+     [('self._get_concurrency()', True), ('ctx[self._CAPACITY] < self._get_concurrency()', True)]),
+    (('C07',), 'mistral.engine.tasks.WithItemsTask._decrease_capacity', 'update',
+     []),
+    (('C04',), 'mistral.engine.tasks.Task.defer', '_create_task_execution',
+     [('self.task_ex', False)]),
+    (('C04',), 'mistral.engine.tasks.Task.defer', 'set_state',
+     [('self.task_ex', True), ('self.task_ex', False)]),
+    (('C04',), 'mistral.workflow.reverse_workflow.ReverseWorkflowController._is_satisfied_task', 'add',
+     [('self.wf_spec.get_task_requires(task_spec)', True), ('self._get_task_executions(name=task_spec.get_name())', False)]),
+    (('C05',), 'mistral.workflow.direct_workflow.DirectWorkflowController.evaluate_workflow_final_context', 'evaluate_upstream_context',
+     [('cfg.CONF.context_versioning.enabled', True)]),
 ]
 
 # atoms that are state tests: decided by the state-domain rules
@@ -252,7 +334,14 @@ def required_effects(ctx, rule, prop):
         if f is None:
             raise AnalysisError('required-effects: %s not found' % fq)
         cfg = ctx.cfg(f)
-        sites = cfg.calls(lambda c, e=eff: U.call_name(c) == e)
+        if eff.startswith('='):
+            # an attribute store `<obj>.<attr> = ...`
+            sites = []
+            for t, st in U.attr_stores(f.node):
+                if t.attr == eff[1:] and cfg.stmt_node(st) is not None:
+                    sites.append((cfg.stmt_node(st), st))
+        else:
+            sites = cfg.calls(lambda c, e=eff: U.call_name(c) == e)
         if not sites:
             raise AnalysisError('required-effects: %s no longer calls %s'
                                 % (fq, eff))
